@@ -48,6 +48,9 @@ pub struct Case {
     /// start one more call on the first (old) connection after the signal
     pub post_call: bool,
     pub rt_seed: u64,
+    /// connections that are all offered at the very instant the (time-placed) signal fires
+    #[serde(default)]
+    pub backlog: u8,
 }
 
 fn call_spec() -> BoxedStrategy<CallSpec> {
@@ -86,8 +89,11 @@ pub fn strategy() -> BoxedStrategy<Case> {
         3 => (any::<u16>(), 0u8..4).prop_map(|(s, j)| Signal::OnSent(s, j)),
         2 => any::<u16>().prop_map(Signal::OnCompleted),
     ];
-    (proptest::collection::vec(conn, 1..=3), signal, any::<bool>(), any::<bool>(), any::<u64>())
-        .prop_map(|(conns, signal, post_conn, post_call, rt_seed)| Case { conns, signal, post_conn, post_call, rt_seed })
+    (proptest::collection::vec(conn, 1..=3), signal, any::<bool>(), any::<bool>(), any::<u64>(), prop_oneof![4 => Just(0u8), 1 => Just(30u8)])
+        .prop_map(|(conns, signal, post_conn, post_call, rt_seed, backlog)| {
+            let backlog = if matches!(signal, Signal::AtMs(_)) { backlog } else { 0 };
+            Case { conns, signal, post_conn, post_call, rt_seed, backlog }
+        })
         .boxed()
 }
 
@@ -114,6 +120,9 @@ struct Scenario {
     post_call: Option<CallResult>,
     conn_closed_ms: Vec<Option<u64>>,
     accepted_conns: usize,
+    /// of the backlog connections offered at the instant of the signal: how many the server started serving
+    backlog_offered: usize,
+    backlog_served: usize,
 }
 
 pub fn run(c: &Case, o: &mut Outcome) -> Result<(), Failure> {
@@ -201,6 +210,32 @@ pub fn run(c: &Case, o: &mut Outcome) -> Result<(), Failure> {
         }
         rt::quiesce().await;
         scen.lock().unwrap().accepted_conns = n_conns;
+        // ---- a backlog of connections offered in the same instant in which the signal fires
+        let backlog_task = match (&case.signal, case.backlog) {
+            (Signal::AtMs(t), b) if b > 0 => {
+                let net = net.clone();
+                let t = *t as u64;
+                Some(tokio::spawn(async move {
+                    tokio::time::sleep(Duration::from_millis(t)).await;
+                    let mut held = vec![];
+                    for _ in 0..b {
+                        if let Ok((io, h)) = net.open() {
+                            // a real HTTP/2 client on each of them, so that an accepted one can be shut
+                            // down gracefully by the server (it answers GOAWAY by closing)
+                            let t = tokio::spawn(async move {
+                                if let Ok((send, conn)) = h2::client::handshake(io).await {
+                                    let _ = conn.await;
+                                    drop(send);
+                                }
+                            });
+                            held.push((t, h));
+                        }
+                    }
+                    held
+                }))
+            }
+            _ => None,
+        };
         // ---- calls
         let mut tasks = vec![];
         for (ci, script, spec) in plan.clone() {
@@ -250,6 +285,14 @@ pub fn run(c: &Case, o: &mut Outcome) -> Result<(), Failure> {
         let _ = srv.await;
         let _ = post.await;
         rt::quiesce().await;
+        if let Some(bt) = backlog_task {
+            if let Ok(held) = bt.await {
+                let mut s = scen.lock().unwrap();
+                s.backlog_offered = held.len();
+                // a connection the server started to serve has received the server's HTTP/2 preface
+                s.backlog_served = held.iter().filter(|(_, h)| h.s2c.lock().unwrap().written > 0).count();
+            }
+        }
         {
             let mut s = scen.lock().unwrap();
             let conns = net.conns.lock().unwrap();
@@ -305,6 +348,13 @@ pub fn run(c: &Case, o: &mut Outcome) -> Result<(), Failure> {
     ensure!(!log.iter().any(|l| l.script == post_conn_script), "C13/connection-accepted-after-signal", "a handler ran for a call on a connection offered after the signal");
     if let Some((ok, _)) = scen.post_conn {
         ensure!(!ok, "C13/connection-accepted-after-signal", "a call on a connection offered after the signal succeeded");
+    }
+    // a backlog queued at the instant of the signal: the accept loop may win a few coin flips against
+    // the signal, but it must not keep accepting (30 in a row has probability 2^-30 on a correct tree)
+    if scen.backlog_offered >= 24 {
+        o.label("backlog_at_signal_instant");
+        o.label_if(scen.backlog_served > 0, "backlog_some_accepted_at_tie");
+        ensure!(scen.backlog_served < scen.backlog_offered, "C13/keeps-accepting-after-signal", "all {} connections queued at the instant of the signal were accepted and served", scen.backlog_offered);
     }
     // ---- 3. serve resolves, and only after every accepted connection has closed
     let Some(done) = scen.serve_done_ms else { bail!("C13/serve-never-resolves", "serve future did not resolve") };
